@@ -131,6 +131,62 @@ def check_group_literal(ctx, im, lit, layout):
         ctx.count("group/" + type(lit.value).__name__ + "-preserved")
 
 
+def check_twin_groups(ctx, im, lit):
+    """the literal next to a literal that merely compares equal (1 / 1.0 / "1"), and next to itself: every position of the
+    return statement must hand back its own literal, value and type"""
+    from fractions import Fraction
+
+    v = lit.value
+    if isinstance(v, str):
+        twins = [lit, lit]
+        try:
+            twins.append(L.num_lit(v)) if v.isdigit() and v.isascii() else None
+        except ValueError:
+            pass
+    elif isinstance(v, int):
+        try:
+            f = float(v)
+        except OverflowError:
+            return
+        if f != v:
+            return
+        twins = [Lit(f, repr(f) if "e" not in repr(f) else None), L.str_lit(str(v))]
+        if twins[0].text is None or twins[0].text.startswith("-") != lit.text.startswith("-"):
+            return
+    else:
+        if not (math.isfinite(v) and v == int(v) and abs(v) < 2**53):
+            return
+        twins = [Lit(int(v), str(int(v))) if not (v == 0 and lit.text.startswith("-")) else Lit(0, "0"), L.str_lit(lit.text)]
+    labels = [lit] + twins + [lit]
+    weights = [1, 1, 2, 1][: len(labels)] if len(labels) == 4 else [1] * len(labels)
+    groups = ", ".join(f"{L.render_lit(lb)} weighted {w}" for lb, w in zip(labels, weights))
+    text = f"def tw {{ splitters: u return {groups} }}"
+    st = ref_parse(text)
+    if st[0] != "ok":
+        ctx.count("harness/reference-did-not-accept")
+        return
+    c = im.construct(text)
+    ctx.evaluated()
+    if c[0] != "ok":
+        ctx.violation("construct-failed", dict(text=text, literal=v, error=c[1:]), mechanism="C05/construct-failed")
+        return
+    W = [Fraction(w) for w in weights]
+    seen = set()
+    for i in range(48):
+        u = f"t{i}"
+        out = im.call(c[1], dict(u=u))
+        ctx.evaluated()
+        want = labels[bucket.exact_index(W, bucket.position(None, ["u"], dict(u=u)))].value
+        seen.add((type(want).__name__, repr(want)))
+        if out[0] != "ok" or not same_value(out[1], want):
+            ctx.violation("group-literal-altered", dict(text=text, literal=v, u=u, expected=want, expected_type=type(want).__name__,
+                                                        got=out, got_type=type(out[1]).__name__ if out[0] == "ok" else None, layout="twins"),
+                          mechanism="C05/group-literal-altered")
+            return
+    ctx.nontrivial(lit.text, type(v).__name__, "group", "twins")
+    ctx.count("group/twin-statements-ok")
+
+
 def check_salt(ctx, im, s):
     src = L.render_lit(Lit(s, s))
     text = f'def sl {{ salt: {src} splitters: uid return "a" weighted 1, "b" weighted 1, "c" weighted 2 }}'
@@ -168,6 +224,7 @@ def check_salt(ctx, im, s):
 def run_literal(ctx, im, lit):
     for layout in ("alone", "after-zero", "in-else"):
         check_group_literal(ctx, im, lit, layout)
+    check_twin_groups(ctx, im, lit)
     nt = not plain(lit)
     for pos, op, text, envs in programs_for(lit):
         st = ref_parse(text)
